@@ -316,7 +316,7 @@ class C13(BaseCheck):
         for t in range(nthreads):
             ops = []
             for _ in range(k.choice([1, 1, 2, 3, 4, 6]) if tier == 'quick' else k.choice([1, 2, 3, 4, 6, 9])):
-                kind = r.choice(['filter', 'filter', 'filter', 'filter', 'limit', 'hold', 'callheld', 'scan', 'bad', 'recheck', 'spoil', 'chain', 'other'])
+                kind = r.choice(['filter', 'filter', 'filter', 'filter', 'limit', 'hold', 'callheld', 'scan', 'bad', 'recheck', 'spoil', 'chain', 'other', 'tail'])
                 if kind == 'filter':
                     ops.append({'op': 'filter', 'f': r.randrange(len(pool))})
                 elif kind == 'limit':
@@ -333,6 +333,10 @@ class C13(BaseCheck):
                     ops.append({'op': 'bad', 'b': r.randrange(len(BAD_FILTERS))})
                 elif kind == 'spoil':
                     ops.append({'op': 'spoil'})
+                elif kind == 'tail':
+                    # the filter on the full grid, then at once on a slice holding only its last row (same row object):
+                    # what a reference resolved to in the full grid says nothing about the one-row grid
+                    ops.append({'op': 'tail', 'f': r.randrange(len(pool))})
                 elif kind == 'other':
                     # the same (possibly already compiled) filter evaluated on a DIFFERENT grid: the answer belongs to
                     # the grid it is asked of, not to the grid the filter was first used on
@@ -476,7 +480,9 @@ class C13(BaseCheck):
         try:
             g = build_grid(hs, case['grid'])
             try:
-                if case.get('chain'):
+                if case.get('tail'):
+                    rows = self._ids(g[-1:].filter(case['text']))
+                elif case.get('chain'):
                     rows = self._ids(g.filter(case['chain'][0]).filter(case['chain'][1]))
                 else:
                     rows = self._ids(g.filter(case['text'], case.get('limit', 0)))
@@ -498,7 +504,7 @@ class C13(BaseCheck):
             return res
         spec = {'nrows': HIST_ROWS, 'tags': {}, 'refs': {}} if solo.get('hist') else solo.get('spec2') or case['grid']
         sres = run_isolated(self, {'class': 'solo', 'grid': spec, 'text': solo['text'], 'limit': solo.get('limit', 0),
-                                   'chain': solo.get('chain'), 'knobs': {'warm': True}})
+                                   'chain': solo.get('chain'), 'tail': solo.get('tail'), 'knobs': {'warm': True}})
         rows = sres.get('solo_rows')
         is_exc = isinstance(rows, list) and rows[:1] == ['exc']
         want = solo['want']
@@ -697,6 +703,23 @@ class C13(BaseCheck):
                                 results.append((tid, oi, 'bad', b, 'exception', got))
                             except Exception as e:
                                 results.append((tid, oi, 'bad', b, 'exception', ('exc', type(e).__name__, '')))
+                        elif op == 'tail':
+                            f = pool[o['f'] % len(pool)]
+                            lastj = spec['nrows'] - 1
+                            full = f['rows']
+                            if f['kind'] == 'ref':
+                                tgt = spec['refs'].get(str(lastj))
+                                want = [lastj] if (tgt == lastj and lastj in spec['tags'].get(f['t'], [])) else []
+                            else:
+                                want = [lastj] if lastj in full else []
+                            try:
+                                got_full = self._ids(grid.filter(f['text']))
+                                got = self._ids(grid[-1:].filter(f['text']))
+                            except Exception as e:
+                                got_full = full
+                                got = ('exc', type(e).__name__, str(e)[:160])
+                            results.append((tid, oi, 'filter', o['f'] % len(pool), full, got_full))
+                            results.append((tid, oi, 'tail', o['f'] % len(pool), want, got))
                         elif op == 'other':
                             f = pool[o['f'] % len(pool)]
                             want = expected_rows(spec2, f)
@@ -812,6 +835,8 @@ class C13(BaseCheck):
                     # a result obtained earlier changed under the caller's feet: no solo evaluation can excuse that
                     del viol['solo']
                     viol['clause'] = 'kept-result-changed'
+        if viol and viol.get('solo') and viol['detail'].get('kind') == 'tail':
+            viol['solo']['tail'] = True
         if viol and viol.get('solo') and viol['detail'].get('kind') == 'other':
             viol['solo']['spec2'] = spec2
         if viol and viol.get('solo') and viol['detail'].get('kind') == 'chain':
